@@ -65,6 +65,17 @@ Theorem C06_aa_unclipped_route_inside_bounds :
     Z.min x0 x1 / 64 - 1 <= x < (Z.max x0 x1 + 63) / 64 + 1 /\ Z.min y0 y1 / 64 - 1 <= y < (Z.max y0 y1 + 63) / 64 + 1 /\ 0 < a.
 Proof. exact short_unclipped_inside_ir. Qed.
 
+(* END TO END for one segment: anti_hair_line_rgn (both scalar pre-clips, FDot6 conversion, the choice between the route without
+   blitter, the clipped route or nothing, subdivision of long segments, the walk with its four blitters) writes only pixels of
+   the w x h pixmap -- "no pixel outside the pixmap's rows is ever addressed" for the anti-aliased hairline, for every pair of
+   binary32 end points, in the semantics of an overflow-checked build (None = panic) *)
+Theorem C06_aa_segment_inside_pixmap :
+  forall w h p0 p1 out,
+  0 < w -> 0 < h ->
+  anti_hair_line_rgn_seg w h p0 p1 = Some out ->
+  forall x y a, In (x, y, a) out -> 0 <= x < w /\ 0 <= y < h /\ 0 < a.
+Proof. exact anti_hair_line_rgn_seg_inside. Qed.
+
 (* the known finding C06-aa-hairline-top-left-fold as a theorem about the model: when the segment starts above the pixmap the
    accumulator is clamped to 0 and the REST of the segment leaves its ideal rows (witness: slope 1/2 from y = -1.25; column 5 is
    drawn on row 2 where the line passes at y = 1.75) *)
